@@ -650,6 +650,9 @@ class Circuit:
         """
         Maps a provided mode to the corresponding internal mode
         """
+        # Whole numbers of other numeric types are valid modes, store as int
+        if isinstance(mode, np.integer | float) and float(mode).is_integer():
+            mode = int(mode)
         for i in sorted(self.__internal_modes):
             if mode >= i:
                 mode += 1
